@@ -152,3 +152,36 @@ def nesting_chains(depths):
         out.append(("local", d, bytes([131]) + (bytes([121]) + bytes(8)) * d + bytes([106])))
         out.append(("listtail", d, bytes([131]) + (bytes([108]) + struct.pack(">I", 1) + bytes([97, 1])) * d + bytes([106])))
     return out
+
+
+def numeric_key_maps():
+    """maps (and tuples / lists used as keys) whose keys are numbers in every representation the format has, minimal
+    and padded: inserting the second key makes the decoder compare across representations"""
+    def small_big(n, total=None, sign=None):
+        d = abs(n).to_bytes(max(1, (abs(n).bit_length() + 7) // 8), "little")
+        if total is not None and total > len(d):
+            d = d + bytes(total - len(d))
+        return bytes([110, len(d), (1 if n < 0 else 0) if sign is None else sign]) + d
+    def large_big(n, total=None):
+        d = abs(n).to_bytes(max(1, (abs(n).bit_length() + 7) // 8), "little")
+        if total is not None and total > len(d):
+            d = d + bytes(total - len(d))
+        return bytes([111]) + struct.pack(">I", len(d)) + bytes([1 if n < 0 else 0]) + d
+    fl = lambda x: bytes([70]) + struct.pack(">d", x)  # noqa
+    keys = [bytes([97, 0]), bytes([97, 7]), bytes([98]) + struct.pack(">i", -7), bytes([98]) + struct.pack(">i", 2**31 - 1),
+            small_big(7), small_big(7, 8), small_big(7, 9), small_big(-7, 12), small_big(2**63), small_big(-2**63), small_big(2**63, 9),
+            small_big(2**64 - 1), small_big(2**64 - 1, 10), small_big(2**64), small_big(0), small_big(0, 9), small_big(7, 9, sign=2),
+            large_big(7), large_big(7, 9), large_big(-2**63, 16), large_big(2**70),
+            fl(7.0), fl(0.0), fl(-0.0), fl(float("inf")), fl(float("nan")), fl(9.2233720368547758e18),
+            bytes([99]) + b"7.00000000000000000000e+00".ljust(31, b"\0")]
+    out = []
+    for a in keys:
+        for b in keys:
+            out.append(bytes([131, 116, 0, 0, 0, 2]) + a + bytes([97, 1]) + b + bytes([97, 2]))
+            out.append(bytes([131, 116, 0, 0, 0, 2, 104, 1]) + a + bytes([97, 1, 104, 1]) + b + bytes([97, 2]))
+    for a in keys[:12]:
+        for b in keys[4:16]:
+            for c in (keys[1], keys[6], keys[21]):
+                out.append(bytes([131, 116, 0, 0, 0, 3]) + a + bytes([106]) + b + bytes([106]) + c + bytes([106]))
+            out.append(bytes([131, 116, 0, 0, 0, 2, 108, 0, 0, 0, 1]) + a + bytes([106, 97, 1, 108, 0, 0, 0, 1]) + b + bytes([106, 97, 2]))
+    return out
